@@ -12,7 +12,7 @@ use storage_layout_extractor::{
 };
 
 use crate::{
-    evidence::{self, run_unify, usage_name, Ev, EvidenceSet, UnifyOpts, UnifyOutcome},
+    evidence::{self, run_unify, Delivery, usage_name, Ev, EvidenceSet, UnifyOpts, UnifyOutcome},
     framework::{CaseResult, Check, CheckInfo, Tier, Violation},
     rng::{derive, Rng},
     sim::Sched,
@@ -727,7 +727,7 @@ impl Check for C15Check {
         CheckInfo {
             id: "C15",
             level: "exploration",
-            rule: "case = one hidden ground-truth typing over 2..10 classes (words of every usage and widths {?,8,32,64,128,160,256}, dynamic bytes, mappings, dynamic and fixed arrays, packed words of one or two sized fields, nesting <= 3) with 1..3 variables per class; compatible sets emit, per class, 1..5 weakenings of the true type (usage at or below it in the documented order, width kept or dropped, Any, the same constructor over existing or fresh-but-equated component variables) plus a spanning tree of equalities; contradictory sets (every second case) add exactly one judgement from the property's list to one class (a different known width, an incompatible usage, a mapping against an array or a sized word, a fixed array of a different 256-bit length); 1 in 32 sets is instead a type nested 12..61 levels deep described twice with different variables, only the outermost pair declared equal (one level is resolved per round of the unifier); each set is unified under 8 schedules and compared with the reference model. evaluations = unifier runs; non-trivial = the run folded at least one class with >= 2 pieces; distinct = distinct (set, fold-order digest), counted with a hash set",
+            rule: "case = one hidden ground-truth typing over 2..10 classes (words of every usage and widths {?,8,32,64,128,160,256}, dynamic bytes, mappings, dynamic and fixed arrays, packed words of one or two sized fields, nesting <= 3) with 1..3 variables per class; compatible sets emit, per class, 1..5 weakenings of the true type (usage at or below it in the documented order, width kept or dropped, Any, the same constructor over existing or fresh-but-equated component variables) plus a spanning tree of equalities; contradictory sets (every second case) add exactly one judgement from the property's list to one class (a different known width, an incompatible usage, a mapping against an array or a sized word, a fixed array of a different 256-bit length); 1 in 32 sets is instead a type nested 12..61 levels deep described twice with different variables, only the outermost pair declared equal (one level is resolved per round of the unifier); each set is unified under 8 schedules (one with the state object used twice, one with one-sided equalities) and compared with the reference model. evaluations = unifier runs; non-trivial = the run folded at least one class with >= 2 pieces; distinct = distinct (set, fold-order digest), counted with a hash set",
             assumptions: &[
                 "reference model: congruence closure over declared equalities + the word lattice documented at WordUse::merge (bytes below everything; numeric below unsigned, signed, address; unsigned below address; bool, selector, function only above bytes); known width beats unknown",
                 "dynamic array vs word and dynamic bytes vs word are not injected as contradictions: the code treats them as compatible on purpose and the property does not list them",
@@ -771,8 +771,16 @@ impl Check for C15Check {
         if g.injected.as_deref().map_or(false, |k| k.starts_with("FixedArray")) {
             res.fault("contradictory_array_length_injected");
         }
-        for sched in schedules(seed) {
-            let o = run_unify(&g.ev, &sched, &UnifyOpts::default());
+        for (six, sched) in schedules(seed).into_iter().enumerate() {
+            let mode = Delivery::for_schedule(six);
+            let o = run_unify(
+                &g.ev,
+                &sched,
+                &UnifyOpts {
+                    mode,
+                    ..UnifyOpts::default()
+                },
+            );
             res.runs += 1;
             res.steps += o.polls;
             if o.record.folds_multi > 0 {
@@ -792,7 +800,7 @@ impl Check for C15Check {
                     property:  "C15".into(),
                     signature: sig,
                     detail:    json!({"case": idx, "seed": seed, "contradictory": contradictory, "schedule": sched.label(), "explanation": detail, "judgements": g.ev.judgements.iter().map(|(v, e)| format!("v{v}: {}", e.kind())).collect::<Vec<_>>()}),
-                    replay:    json!({"check": "C15", "kind": "generated", "seed": seed, "contradictory": contradictory, "deep": deep, "sched": sched}),
+                    replay:    json!({"check": "C15", "kind": "generated", "seed": seed, "contradictory": contradictory, "deep": deep, "sched": sched, "mode": mode}),
                 });
                 break;
             }
@@ -810,7 +818,15 @@ impl Check for C15Check {
         let sched: Sched = serde_json::from_value(payload["sched"].clone()).map_err(|e| e.to_string())?;
         let mut r = Rng::new(seed);
         let g = if payload["deep"].as_bool() == Some(true) { generate_deep(&mut r) } else { generate(&mut r, contradictory) };
-        let o = run_unify(&g.ev, &sched, &UnifyOpts::default());
+        let mode: Delivery = serde_json::from_value(payload["mode"].clone()).unwrap_or(Delivery::Plain);
+        let o = run_unify(
+            &g.ev,
+            &sched,
+            &UnifyOpts {
+                mode,
+                ..UnifyOpts::default()
+            },
+        );
         Ok(compare(&g, &o).map(|(sig, detail)| Violation {
             property:  "C15".into(),
             signature: sig,
